@@ -17,6 +17,9 @@ CLAIMED = {
  "C09": ("exploration", "IterateSATGen/RandomGen/IterateGen with n in {0,1,|V|-1,|V|,|V|+1,3|V|}; length = min(n,|V|), no printed sequence more often than its reference multiplicity; under peer/IO faults fewer may return, never duplicates", "reference-model oracle with fault-relaxed count", "6 C09"),
  "C19": ("exploration", "seeded histories of 3-12 public calls on one block (all strategies, print/tabulate/csv/tuples/dicts/mismatch) with stdout EPIPE and ENOSPC injected inside calls; block state invariants after every call; every later synthesize_trials must succeed (fresh-block twin as reference) with the same columns and valid sequences", "history machine with state invariants + fresh-twin reference", "6 C19"),
  "C20": ("exploration", "same histories; conversions and CSV files (read back from the simulated file system) must reproduce every declared factor's returned values, never expose internal factors; CSV sub-check skipped for calls hit by an injected I/O fault", "history machine + output-equivalence oracle over SimFS", "6 C20"),
+ "C03": ("exploration", "ideal-uniform ('cycle') sampler peers: one full cycle over all models of the clauses the library handed to pycmsgen / all projections handed to pyunigen; multiset of returned sequences must equal exhausted IterateSATGen's (one blocking clause per trial-sequence assignment), so no sequence has several models or none", "cycle sampler peer + conservation oracle (bounded model enumeration inside the fake)", "6 C03"),
+ "C27": ("exploration", "every formula-based strategy over both transports; per peer invocation the file text in SimFS, what the library's parser delivered, the peer's model and what the library claims it answered are recorded together with the intended CNF object; strict DIMACS oracle, parser = text, claimed solution = model, successive files differ by exactly the blocking clause; EIO/ENOSPC injected", "protocol conformance over the recorded file/peer history", "6 C27"),
+ "C28": ("exploration", "fake Gurobi peer reads each round's OPB text from SimFS and answers by the peer policy; ILP solution set = SAT solution set on generated clause sets with EQ/LT/GT requests (brute-force documented meaning as referee) and on generated designs; each appended OPB constraint excludes exactly the previous solution", "fake ILP peer + two-realisations-agree oracle", "6 C28"),
 }
 
 NA = {
